@@ -10,6 +10,9 @@ EXTENDS Integers, Sequences
 
 Frac(k, res, n) == <<2 * k * res - n, 2 * (res - 1) * n>>
 Fracs(res, n) == [j \in 1..(n + 1) |-> Frac(j - 1, res, n)]
+(* first and last edge, with the common factor n cancelled (TLC integers are 32-bit: res and n reach 2^18) *)
+FracFirst(res) == <<-1, 2 * (res - 1)>>
+FracLast(res) == <<2 * res - 1, 2 * (res - 1)>>
 NoVal == <<>>
 
 (* argument broadcasting over channels (io.py l.1513-1532) *)
@@ -22,7 +25,7 @@ Scales == {"linear", "log", "logicle"}
 (* (log scale) whether the lower limit had to be replaced by min(1, hi / 10^5)   *)
 One(res, nb, sc, loNonPositive) ==
   LET n == IF nb = NoVal THEN res ELSE nb[1] IN
-  [n |-> n, scale |-> sc, first |-> Frac(0, res, n), last |-> Frac(n, res, n),
+  [n |-> n, scale |-> sc, first |-> FracFirst(res), last |-> FracLast(res),
    fracs |-> IF n <= 16 THEN Fracs(res, n) ELSE <<>>,
    replaced |-> (sc = "log" /\ loNonPositive), res |-> res]
 
@@ -36,8 +39,11 @@ HistBinsCall(chform, nb, sc, C, resOf, loNonPos) ==
 
 (* theorems *)
 Lt(a, b) == a[1] * b[2] < b[1] * a[2]            \* a < b for positive denominators
-Increasing(res, n) == \A j \in 1..n : Lt(Frac(j - 1, res, n), Frac(j, res, n))
-Covers(res, n) == Frac(0, res, n)[1] < 0 /\ Lt(<<1, 1>>, Frac(n, res, n))
+Increasing(res, n) == \A j \in 1..n : Frac(j - 1, res, n)[1] < Frac(j, res, n)[1]     \* same (positive) denominator
+Covers(res, n) == FracFirst(res)[1] < 0 /\ Lt(<<1, 1>>, FracLast(res))
+EndsAgree(res, n) == \* the cancelled forms equal the general formula (checked where it does not overflow)
+  Frac(0, res, n)[1] * FracFirst(res)[2] = FracFirst(res)[1] * Frac(0, res, n)[2]
+  /\ Frac(n, res, n)[1] * FracLast(res)[2] = FracLast(res)[1] * Frac(n, res, n)[2]
 (* with n = res the centre of bin v is v / (res - 1) of the span *)
 Centred(res) == \A v \in 0..(res - 1) :
    LET a == Frac(v, res, res)  b == Frac(v + 1, res, res) IN
